@@ -86,7 +86,7 @@ def expected_counts(cells, pardim, period=None):
     return expected
 
 
-def build_ring(rng, pardim, order=2, refine=0, rational=False, repeat_knot=False, nring=None, right_handed=False):
+def build_ring(rng, pardim, order=2, refine=0, rational=False, repeat_knot=False, nring=None, right_handed=False, asym=False):
     """Conforming complexes that close around an axis: the lattice is periodic along axis 0 with nring cells per turn.
     nring = 1: every patch is a ring cut open along a seam, so its first and last face along axis 0 are ONE interface
     (a patch adjacent to itself); nring = 2: two patches that meet along two different interfaces; nring = 3: an
@@ -121,14 +121,14 @@ def build_ring(rng, pardim, order=2, refine=0, rational=False, repeat_knot=False
                     cps.append(point(c[0] * M + m, c[1] + jj, (c[2] + kk) if pardim == 3 else 0.0))
         o = cls(*([b0] + [BSplineBasis(2) for _ in range(pardim - 1)]), cps)
         # the patch as built (angle, radius, height) is left-handed: right-handed re-orientations are the odd ones
-        patches.append(_dress(rng, o, pardim, order, refine, repeat_knot, rational, right_handed, base_parity=1))
+        patches.append(_dress(rng, o, pardim, order, refine, repeat_knot, rational, right_handed, base_parity=1, asym=asym))
     order_ = list(range(len(patches)))
     rng.shuffle(order_)
     return dict(patches=[patches[i] for i in order_], cells=[cells[i] for i in order_], kind='ring%d' % nring,
                 expected=expected_counts(cells, pardim, nring), phi=None, pardim=pardim, dim=dim, period=nring)
 
 
-def _dress(rng, o, pardim, order, refine, repeat_knot, rational, right_handed, base_parity=0):
+def _dress(rng, o, pardim, order, refine, repeat_knot, rational, right_handed, base_parity=0, asym=False):
     """order elevation, refinement, repeated knots, rationality and a random re-orientation of one patch"""
     if order > 2:
         o.raise_order(*([order - 2] * pardim))
@@ -139,6 +139,11 @@ def _dress(rng, o, pardim, order, refine, repeat_knot, rational, right_handed, b
             have = sum(1 for x in o.knots(d_, with_multiplicities=True) if abs(x - 0.5) < 1e-12)
             if have < 2:
                 o.insert_knot([0.5] * (2 - have), d_)
+    if asym:
+        # knot vectors that are not symmetric under reversal (the same in every patch along a lattice axis, so the complex
+        # stays conforming): a reversed interface direction is then distinguishable from an unreversed one
+        for d_ in range(pardim):
+            o.insert_knot([0.3, 0.35, 0.6][d_], d_)
     if rational == 'mixed':
         rational = rng.random() < 0.5       # per patch: rational and polynomial patches share vertices, edges and faces
     if rational:
@@ -152,7 +157,7 @@ def _dress(rng, o, pardim, order, refine, repeat_knot, rational, right_handed, b
     return reorient(o, perm, flip)
 
 
-def build(rng, pardim, dim=None, order=2, refine=0, rational=False, right_handed=False, phi=None, cells=None, kind=None, repeat_knot=False):
+def build(rng, pardim, dim=None, order=2, refine=0, rational=False, right_handed=False, phi=None, cells=None, kind=None, repeat_knot=False, asym=False):
     """returns dict(patches=[SplineObject], cells=[...], kind=..., expected={d: count}, phi=phi)"""
     from splipy import BSplineBasis, Curve, Surface, Volume
     dim = dim or max(pardim, rng.choice([2, 3]))
@@ -179,6 +184,9 @@ def build(rng, pardim, dim=None, order=2, refine=0, rational=False, right_handed
                 have = sum(1 for x in o.knots(d_, with_multiplicities=True) if abs(x - 0.5) < 1e-12)
                 if have < 2:
                     o.insert_knot([0.5] * (2 - have), d_)
+        if asym:
+            for d_ in range(pardim):
+                o.insert_knot([0.3, 0.35, 0.6][d_], d_)
         if (rng.random() < 0.5) if rational == 'mixed' else rational:
             o.force_rational()
         ors = orientations(pardim)
